@@ -4,6 +4,7 @@
 mod checks;
 mod hclient;
 mod hserver;
+mod net;
 mod refmodel;
 mod report;
 mod sim;
